@@ -125,7 +125,8 @@ theorem layoutText_int (fmt : Format) (feats : Features) (o : WOpts) (ho : o.max
   have hsci : WriteRadix.sciExpOf ⟨chars (d0 :: t), [], []⟩ = (t.length : Int) := by
     unfold WriteRadix.sciExpOf
     dsimp only
-    rw [ltrimCount_chars_cons hd0, hcl]; omega
+    rw [List.append_nil, ← List.append_nil (chars (d0 :: t)), ltrimCount_chars_cons hd0, List.append_nil, hcl]
+    omega
   have hsci' : Dragonbox.i32 (Dragonbox.i32 (((d0 :: t).length : Int) - ((0 : Nat) : Int)) - 1) = (t.length : Int) := by
     simp only [List.length_cons, Dragonbox.i32]
     omega
